@@ -38,7 +38,7 @@ def _case(draw):
 
 def drivers(tier):
     th = tier == 'thorough'
-    return [dict(kind='hyp', name='datasets', strategy=_case(), examples=40000 if th else 2500)]
+    return [dict(kind='hyp', name='datasets', strategy=_case(), examples=120000 if th else 10000)]
 
 
 def _expected_samples(T):
